@@ -436,6 +436,7 @@ var (
 	vSharedOnce   sync.Once
 	vSharedDocV   *Swagger
 	vSharedCacheV ResolutionCache
+	vSharedOptsV  *ExpandOptions
 )
 
 func vSharedInit() {
@@ -443,10 +444,12 @@ func vSharedInit() {
 		vSharedDocV = new(Swagger)
 		_ = json.Unmarshal([]byte(vC17DocText), vSharedDocV)
 		vSharedCacheV = defaultResolutionCache()
+		vSharedOptsV = &ExpandOptions{}
 	})
 }
 func vSharedDoc() *Swagger              { vSharedInit(); return vSharedDocV }
 func vSharedCache() ResolutionCache     { vSharedInit(); return vSharedCacheV }
+func vSharedOpts() *ExpandOptions       { vSharedInit(); return vSharedOptsV }
 func vShare(v interface{}, name string) {}
 func vTraceBegin()                      {}
 func vTraceEnd(name string)             {}
